@@ -33,6 +33,9 @@ func inGraphFragment(d *vdev) bool {
 				}
 			}
 		case graphKind(k):
+			if _, n := headKind(w); k == "user" && d.localUser(n) {
+				return false // local accounts are not in the model
+			}
 			if _, n := headKind(w); defaultTG[n] != "" || n == defaultGP {
 				return false // built-in objects are anchors of their own
 			}
@@ -64,7 +67,7 @@ func encodeGraph(d *vdev) string {
 			default:
 				mode := modeOf(w)
 				var subs []string
-				for _, s := range b.Subs {
+				for _, s := range b.modelSubs() {
 					sw := strings.Fields(s)
 					key, rk, rn := strings.Join(sw, " "), "", ""
 					if sl := subSlots(mode, sw); len(sl) == 1 {
